@@ -327,3 +327,23 @@ Proof.
   induction k as [|k IH]; intros pos data H; [reflexivity|].
   destruct data as [|d data]; [cbn in H; lia|]. cbn [fill covered firstn]. f_equal. apply IH. cbn in H. lia.
 Qed.
+
+(* ---------- the statements of Properties_C04.v (position 0, empty output) ---------- *)
+Lemma sparse_stream_spec_l sched m fsize data out' data' pos' :
+  stream_go sched m fsize 0 data [] = S_Done out' data' pos' ->
+  out' = fill (N.to_nat fsize) 0 m data.
+Proof.
+  intro H. apply stream_go_done in H; [|apply N.le_0_l]. rewrite N.sub_0_r in H. exact H.
+Qed.
+
+Lemma sparse_stream_terminates_l sched m fsize data :
+  fsize <= N.of_nat (length sched) ->
+  match stream_go sched m fsize 0 data [] with S_More _ _ _ => False | _ => True end.
+Proof. intro H. apply stream_go_progress. rewrite N.sub_0_r. exact H. Qed.
+
+Lemma sparse_expand_ok_l m data fsize :
+  m <> [] -> wf_map 0 m fsize -> map_bytes m <= N.of_nat (length data) ->
+  fill (N.to_nat fsize) 0 m data = expand 0 m data fsize.
+Proof.
+  intros H1 H2 H3. rewrite <- (fill_expand m 0 data fsize H1 H2 H3). rewrite N.sub_0_r. reflexivity.
+Qed.
